@@ -248,13 +248,16 @@ def gen_inline(rng, cfg, depth, budget):
         r = rng.random()
         if r < cfg['p_span'] and depth < 2:
             st = []
-            for side in (('left', 'right') if cfg['leftdeco'] else ('right',)):
+            for side in (('left', 'right') if cfg['leftdeco'] else ('right',) if cfg['rightdeco'] else ()):
                 if rng.random() < 0.6:
                     st.append('padding-%s:%dpx' % (side, rng.choice([1, 2, 5, 10, 20])))
+                    cfg['has_deco_' + side] = True
                 if rng.random() < 0.4:
                     st.append('border-%s:%dpx solid' % (side, rng.choice([1, 2, 4])))
+                    cfg['has_deco_' + side] = True
                 if rng.random() < 0.4:
                     st.append('margin-%s:%dpx' % (side, rng.choice([1, 3, 7, 15])))
+                    cfg['has_deco_' + side] = True
             if cfg['mixed'] and rng.random() < 0.5:
                 st.append('font-size:%dpx' % rng.choice(SIZES))
             if depth >= 1:
@@ -288,7 +291,7 @@ def gen_render_case(rng, idx):
     ta = rng.choice(['left', 'left', 'right', 'center', 'justify', 'start', 'end'])
     rtl = rng.random() < 0.1
     cfg = dict(pre=ws in ('pre', 'pre-wrap', 'pre-line'), p_span=rng.choice([0, 0, 0.15, 0.3]),
-               p_ib=rng.choice([0, 0, 0.1]), leftdeco=rng.random() < 0.3, mixed=rng.random() < 0.15, shy=rng.random() < 0.12,
+               p_ib=rng.choice([0, 0, 0.1]), leftdeco=rng.random() < 0.3, rightdeco=rng.random() < 0.6, mixed=rng.random() < 0.15, shy=rng.random() < 0.12,
                lens=rng.choice([[1, 2, 3], [1, 2, 3, 5, 8], [3, 5, 8, 13], [1, 30], [1, 2, 3, 5, 8, 13, 21, 30]]))
     nwords = rng.choice([1, 2, 3, 5, 8, 13, 21, 40, 80, 150, 400])
     if cfg['p_span']:
@@ -314,7 +317,7 @@ def gen_render_case(rng, idx):
                 idx, style, body))
     return dict(html=html, toks=toks, fs=fs, ws=ws, ow=ow, wb=wb, ta=ta, rtl=rtl, width=width, indent=indent, flt=flt,
                 mixed=cfg['mixed'], shy=cfg['shy'], spans=cfg['p_span'] > 0,
-                leftdeco=cfg['leftdeco'] and cfg['p_span'] > 0,
+                leftdeco=cfg.get('has_deco_left', False), rightdeco=cfg.get('has_deco_right', False),
                 nested=cfg.get('has_nested', False), ib_in_span=cfg.get('has_ib_in_span', False))
 
 
@@ -587,6 +590,8 @@ def classify_render(case, clause, detail):
     if can_break and clause in fit_clauses and (case['indent'] > 0 or case['spans'] or OBJ in source_text(case['toks'], 'normal')):
         # some text box met a negative available width (after an indent, a wide inline-block, paddings)
         return 'sfl-negative-width-no-wrap-when-breaking-inside-words'
+    if case['rightdeco'] and clause == 'greedy':
+        return 'inline-end-spacing-subtracted-on-every-line-of-last-child'
     if (case['nested'] or case['ib_in_span']) and clause in fit_clauses + ('extents-add-up',):
         return 'nested-inline-boxes-line-breaking'
     return None
@@ -596,9 +601,23 @@ def classify_render(case, clause, detail):
 def check(run):
     rng = random.Random(run.seed * 7919 + 9)
     thorough = run.tier == 'thorough'
-    common.prove(run, 'C09', ['model/C09Line.vo', 'model/C09Judge.vo', 'model/C09Align.vo'])
-    stream_raw(run, rng, 4000 if thorough else 1200)
-    stream_sfl(run, rng, 12000 if thorough else 3000)
+    common.prove(run, 'C09', ['model/C09Line.vo', 'model/C09Spec.vo', 'model/C09Judge.vo', 'model/C09Align.vo'])
+    run.trusted += ['Coq 8.16.1 kernel (coqc); vm_compute for the cases.v evaluation',
+                    'harness/p_c09.py: case generators, Coq printers, the Python judge of the render monitor',
+                    'harness/impl_c09.py: direct-call stubs (real computed style + four-attribute context; stub boxes '
+                    'with Fraction fields for text_align)']
+    run.assumptions += [
+        'Pango is modelled by the definition G (first-fit, hanging final space, soft-hyphen / char-wrap hyphen rules) on '
+        'the alphabet a-h / space / newline / U+00AD / U+2010 with integer font sizes; stream pango-G tests it against '
+        'the raw library and stream sfl-direct against split_first_line on every case',
+        'dictionary hyphenation (hyphens: auto), bidi, tabs, letter/word-spacing, real fonts are outside the model',
+        'split_inline_box / _break_waiting_children (line breaking across inline boxes) is monitored by full renders, not proved',
+        'line_box_verticality is proved for baseline-aligned children only; other vertical-align values are monitored '
+        'through the stacking clause of the render monitor']
+    stream_raw(run, rng, 4000 if thorough else 1000)
+    stream_sfl(run, rng, 15000 if thorough else 2400)
+    stream_align(run, rng, 4000 if thorough else 600)
+    stream_render(run, rng, 6000 if thorough else 700)
 
 
 def stream_raw(run, rng, n):
@@ -707,6 +726,110 @@ def stream_sfl(run, rng, n):
                          '= (style, soft hyphen?, width None?, flags, size, length/20)')
 
 
+def stream_align(run, rng, n):
+    cases = [gen_align_case(rng) for _ in range(n)]
+    outs = common.run_impl('impl_c09', 'align', cases, chunksize=32)
+    coq, kept = [], []
+    for c, (st, o) in zip(cases, outs):
+        if st != 'ok':
+            run.fail('text_align raised', {'stream': 'align-direct', 'case': c, 'outcome': o}, signature='align-raise')
+            continue
+        coq.append(coq_align_case(c, o)); kept.append((c, o))
+    try:
+        masks = common.eval_cases('c09align', PRE, 'align_case', coq, 'align_judge')
+    except RuntimeError as exc:
+        run.oblige('corr:align-direct', False, str(exc))
+        return
+    mism = [(c, o) for (c, o), m in zip(kept, masks) if m & 1]
+    run.oblige('corr:align-direct(text_align/justify_line/add_word_spacing model vs inline.py on stub trees)', not mism,
+               'first disagreements: %s' % mism[:2])
+    for (c, o), m in zip(kept, masks):
+        if m & 2:
+            run.fail('text_align offset outside [0, available - width]', {'stream': 'align-direct', 'case': c, 'impl_output': o})
+        if m & 4:
+            run.fail('justified line does not fill the available width', {'stream': 'align-direct', 'case': c, 'impl_output': o})
+    run.count('align-direct', len(kept), [(c['align'], c['align_last'], c['dir'], c['ws'], c['last'],
+                                            Fraction(c['avail']) > items_width(c['items']), len(c['items'])) for c, _ in kept],
+              samples=[{'case': kept[0][0], 'impl': kept[0][1]}])
+    run.stream_info('align-direct', rule='stub line boxes: 1..4 children (text boxes with 0..4 spaces / nbsp, atomic boxes, '
+                    'nested inline boxes), rational widths, every text-align x text-align-last x direction x white-space, '
+                    'available width below/equal/above the line width')
+
+
+def stream_render(run, rng, n):
+    cases = [gen_render_case(rng, i) for i in range(n)]
+    outs = common.run_impl('impl_c09', 'render_lines', [{'html': c['html']} for c in cases], limit=60, chunksize=4)
+    known, nlines, clauses = {}, 0, set()
+    for c, (st, o) in zip(cases, outs):
+        if st == 'timeout':
+            run.fail('render timeout', {'stream': 'render-lines', 'html': c['html']}, signature='timeout')
+            continue
+        if st == 'exc':
+            sig = 'crash:%s' % (o['site'],)
+            if c['shy'] and o['type'] == 'AssertionError' and o['site'] and o['site'][2] == 'split_text_box':
+                sig = 'crash-soft-hyphen-overflow-before-newline'
+                known[sig] = known.get(sig, 0) + 1
+            run.fail('render raised %s at %s' % (o['type'], o['site']),
+                     {'stream': 'render-lines', 'html': c['html'], 'exc': o}, signature=sig)
+            continue
+        nlines += sum(len(p['lines']) for p in o)
+        bad = judge_render(c, o)
+        seen = set()
+        for clause, detail in bad:
+            sig = classify_render(c, clause, detail)
+            if (clause, sig) in seen:
+                continue
+            seen.add((clause, sig))
+            if sig is not None:
+                known[sig] = known.get(sig, 0) + 1
+            run.fail('paragraph violates clause %s: %s' % (clause, detail),
+                     {'stream': 'render-lines', 'html': c['html'], 'case': {k: v for k, v in c.items() if k != 'html'},
+                      'clause': clause, 'detail': detail}, signature=sig)
+        clauses.add((c['ws'], c['ow'], c['wb'], c['ta'], c['rtl'], c['flt'] is not None, c['spans'], c['mixed'], c['shy']))
+    run.count('render-lines', len(cases), clauses, samples=[cases[0]['html'][:700]])
+    run.stream_info('render-lines', lines=nlines, known_mechanisms_hit=known, judged_in='Python (harness/p_c09.py judge_render)',
+                    rule='paragraphs of 1..400 words of 1..30 letters a-h in containers 0..60em, 10 font sizes 1..40px, '
+                         'white-space x overflow-wrap x word-break x text-align x text-indent, soft hyphens (12%), spans with '
+                         'padding/border/margin (nested <= 2), inline-blocks, mixed sizes (15%), rtl (10%), a float before '
+                         'the paragraph (8%); clauses: lines cover the source once, breaks only at allowed opportunities, '
+                         'no overflow unless one unit, greedy, inside the block / text-align / justify fills, extents add up, '
+                         'stacking y+h; distinct = style combination')
+
+
 def replay(data):
-    print('nothing to replay')
+    d = data.get('data', {})
+    stream = d.get('stream')
+    if stream == 'render-lines':
+        (st, o), = common.run_impl('impl_c09', 'render_lines', [{'html': d['html']}], limit=60)
+        if st != 'ok':
+            print('replay: render', st, o and o.get('type'))
+            return 1
+        case = dict(d['case'], html=d['html'])
+        case['toks'] = [tuple(t) for t in case['toks']]
+        bad = judge_render(case, o)
+        print('replay:', bad[:5])
+        return 1 if any(b[0] == d.get('clause') for b in bad) or bad else 0
+    if stream == 'sfl-direct':
+        c = d['case']
+        (st, o), = common.run_impl('impl_c09', 'sfl', [c])
+        print('replay: implementation ->', st, o if st == 'ok' else o.get('type'))
+        m = common.eval_cases('c09replay', PRE, 'sfl_case', [coq_sfl_case(c, st, o)], 'sfl_judge')
+        print('judge mask (bit0 model<>impl, bit1 line end/next, bit2 hyphen, bit3 width, bit4 unreadable):', m)
+        return 1 if m[0] else 0
+    if stream == 'align-direct':
+        c = d['case']
+        (st, o), = common.run_impl('impl_c09', 'align', [c])
+        if st != 'ok':
+            print('replay: raised', o)
+            return 1
+        m = common.eval_cases('c09replay', PRE, 'align_case', [coq_align_case(c, o)], 'align_judge')
+        print('judge mask', m)
+        return 1 if m[0] else 0
+    if stream == 'pango-G':
+        c = d['case']
+        (st, o), = common.run_impl('impl_c09', 'raw', [c])
+        m = common.eval_cases('c09replay', PRE, 'raw_case', [coq_raw_case(c, o)], 'raw_judge')
+        print('raw', o, 'mask', m)
+        return 1 if m[0] else 0
+    print('nothing to replay for', stream)
     return 0
